@@ -4,3 +4,4 @@ pub mod ref_stun;
 pub mod ref_select;
 pub mod ref_route;
 pub mod ref_sip;
+pub mod sdp;
